@@ -330,8 +330,13 @@ func allCases(res *vkit.Result, baseOK bool) (all []Case) {
 		cases = append(cases, Case{Layer: "corresetup", Ctxs: []int{k}})
 	}
 	for _, layer := range []string{"corre", "extended"} {
-		for _, b := range []int{8, 16, 256, 600} {
+		// batch sizes in bits; the larger ones straddle the 1024-row boundaries of the inflated batch
+		// (8L+208 rows for L bytes of choices: 824 -> 1032, 1024 -> 1232, 1840 -> 2048, 2400 -> 2608)
+		for _, b := range []int{8, 16, 256, 600, 824, 1024, 1840, 2400} {
 			for _, v := range vecs {
+				if b > 600 && v != "seeded" && v != "ones" && !vkit.Thorough() {
+					continue
+				}
 				cases = append(cases, Case{Layer: layer, Vec: v, Batch: b, Ctxs: three})
 			}
 		}
